@@ -48,6 +48,57 @@ Proof.
   - intros [i [Hi E]]. exists i. split; [auto|apply in_seq; lia].
 Qed.
 
+Lemma NoDup_app_disj {A} (l1 l2 : list A) :
+  NoDup l1 -> NoDup l2 -> (forall x, In x l1 -> ~ In x l2) -> NoDup (l1 ++ l2).
+Proof.
+  induction l1 as [|a l1 IH]; intros N1 N2 D; cbn; auto.
+  inversion N1; subst. constructor.
+  - rewrite in_app_iff. intros [H|H]; [contradiction|]. apply (D a); [now left|exact H].
+  - apply IH; auto. intros x Hx. apply D. now right.
+Qed.
+
+Lemma NoDup_app_inv {A} (l1 l2 : list A) :
+  NoDup (l1 ++ l2) -> NoDup l1 /\ NoDup l2 /\ (forall x, In x l1 -> ~ In x l2).
+Proof.
+  induction l1 as [|a l1 IH]; cbn; intro H.
+  - split; [constructor|]. split; [exact H|intros x []].
+  - inversion H as [|? ? Ha Hr]; subst. destruct (IH Hr) as [N1 [N2 D]]. split; [|split; [exact N2|]].
+    + constructor; [|exact N1]. intro Hin. apply Ha. apply in_or_app. now left.
+    + intros x [<-|Hx]; [|now apply D]. intro Hin. apply Ha. apply in_or_app. now right.
+Qed.
+
+Local Open Scope nat_scope.
+Lemma exists_unselected (m : nat) sel : NoDup sel -> (forall i, In i sel -> i < m) -> length sel < m ->
+  exists i, i < m /\ ~ In i sel.
+Proof.
+  intros ND Hlt Hlen.
+  destruct (existsb (fun i => negb (existsb (Nat.eqb i) sel)) (seq 0 m)) eqn:E.
+  - apply existsb_exists in E. destruct E as [i [Hi Hn]]. apply in_seq in Hi. exists i. split; [lia|].
+    intro Hin. apply negb_true_iff in Hn.
+    assert (existsb (Nat.eqb i) sel = true) by (apply existsb_exists; exists i; split; [exact Hin|apply Nat.eqb_refl]).
+    congruence.
+  - exfalso. assert (Hall : incl (seq 0 m) sel).
+    { intros i Hi. destruct (in_dec Nat.eq_dec i sel) as [H|H]; [exact H|]. exfalso.
+      assert (X : existsb (fun i => negb (existsb (Nat.eqb i) sel)) (seq 0 m) = true).
+      { apply existsb_exists. exists i. split; [exact Hi|]. apply negb_true_iff.
+        destruct (existsb (Nat.eqb i) sel) eqn:E2; [|reflexivity].
+        apply existsb_exists in E2. destruct E2 as [j [Hj Ej]]. apply Nat.eqb_eq in Ej. subst j. contradiction. }
+      congruence. }
+    apply NoDup_incl_length in Hall; [|apply seq_NoDup]. rewrite seq_length in Hall. lia.
+Qed.
+
+Lemma firstn_In {A} (x : A) : forall n l, In x (firstn n l) -> In x l.
+Proof. induction n as [|n IH]; intros [|y l]; cbn; try tauto. intros [H|H]; [now left|right; auto]. Qed.
+
+Lemma firstn_NoDup {A} : forall n (l : list A), NoDup l -> NoDup (firstn n l).
+Proof.
+  induction n as [|n IH]; intros [|x l] H; cbn; try constructor.
+  - inversion H; subst. intro Hin. apply firstn_In in Hin. contradiction.
+  - inversion H; subst. apply IH. assumption.
+Qed.
+
+Local Close Scope nat_scope.
+
 (* remove the element at position i (del l[i]); out of range leaves the list unchanged *)
 Fixpoint remove_nth {A} (i : nat) (l : list A) : list A :=
   match l, i with
